@@ -38,6 +38,26 @@ CHECKS = {
          "every history of open/change/save/close/create/delete/external-change events over two files and six content variants that a conformant client can produce, up to depth 3 (quick) / 4-5 (thorough) from three initial workspaces, is replayed through the real jrpc2 server; after every event the folded client view (last publishDiagnostics per file) and definition answers must equal those of a fresh server on the same disk, with the unsaved-buffer rule of the property; no state merging, because equal client-visible states may hide different server states",
          "trusted: the client conventions of DESIGN.md Appendix D (how VS Code orders save / watched events); the oracle is the implementation itself from the initial state; files touched-but-equal-to-disk are not judged",
          "DESIGN.md §4 C08"),
+ 'C04': ("bounded-exhaustive document enumeration (same-line prefixes x occurrence kinds x line endings x lines above) on the real server; every returned range checked against the client's text with a reference UTF-16 line table",
+         "all range-returning answers (diagnostics with every check on, definition, references, highlight, rename edits, document and workspace symbols) for every document of the stated product space are checked: start <= end, both ends inside the client's text in UTF-16 units, and the text under a range that names an identifier is that identifier",
+         "trusted: internal/textref line table; bounds: 12 prefixes singly (quick) / in pairs (thorough), 10 occurrence kinds, 3 line endings, 4 kinds of preceding lines",
+         "DESIGN.md §4 C04"),
+ 'C11': ("bounded-exhaustive program enumeration (every renameable occurrence, two new names) on the real server; oracle: reference occurrence classes, re-binding of the renamed program, fresh server on the renamed workspace",
+         "for every occurrence of every enumerated program rename is requested; the edit must be non-overlapping, cover identifiers spelled with the old name, equal the reference binder's occurrence class, leave the binding structure of all files unchanged when applied, and leave the diagnostics of a fresh server unchanged up to the name",
+         "trusted: internal/luaref binder; never-assigned globals not judged; diagnostics compared by (file, type, line)",
+         "DESIGN.md §4 C11"),
+ 'C13': ("bounded-exhaustive enumeration (declaration forms x comment placements x all comment strings up to a length over ASCII, 2-, 3- and 4-byte characters) on the real server against the documented attachment rule",
+         "hover is requested at the declaration and at a use for every combination; the label must say what the declaration says (local marker, literal, parameter names) and the documentation must be exactly the attached comment (trailing, else the block directly above, never one separated by a blank line), byte-identical after the documented clean-up",
+         "trusted: the attachment rule as stated by the property; comments empty after clean-up or starting with an extra dash are not judged; bounds: comment strings <=2 (quick) / <=3 (thorough) symbols",
+         "DESIGN.md §4 C13"),
+ 'C19': ("bounded-exhaustive file enumeration (all sequences of top-level statements of a 23-form declaration alphabet up to the length bound) on the real server against the reference parser's declaration list",
+         "every top-level local, global and function (members included) of every enumerated file must have an outline entry whose range lies in the file and contains the declaring identifier, and workspace/symbol with the exact name must return an entry at the declaration",
+         "trusted: internal/luaref parser for the declaration list; matching rule: entry range contains the declaring identifier and entry name contains it; bounds: <=2 (quick) / <=3 (thorough) statements",
+         "DESIGN.md §4 C19"),
+ 'C20': ("bounded-exhaustive enumeration of pattern instances and near-misses (per-pattern small spaces x syntactic contexts x nesting wraps) on the real server against independent pattern matchers with explicit don't-care zones",
+         "each documented pattern check (5,7,8,13,14,15,16,19,20,21) is confronted with every instance and near-miss of its small space planted in every context; on the instance line the type must appear exactly once, must not appear, or is not judged, and never on another line",
+         "trusted: matchers written from docs/manual/config.md and the property text; don't-care zones listed in the evidence; bounds: 13 operators x 10x10 operands x 12 contexts x 4/9 wraps, tables <=3 entries, <=3 targets/values/parameters/conditions",
+         "DESIGN.md §4 C20"),
 }
 NOT_YET = "check not built yet in this round (planned: see DESIGN.md section 4); no claim is made"
 
